@@ -429,6 +429,31 @@ def spendPendingClause (db : DB) : Except Err DB :=
   | .error e => .error e
   | .ok _ => markBatchCompleteTx db
 
+/-- classification of the spending input's witness (`poolscript.IsExpirySpend`/`IsTaprootExpirySpend`,
+`IsMultiSigSpend`/`IsTaprootMultiSigSpend`, neither) -/
+inductive Witness where
+  | expiry | multiSig | unknown
+deriving DecidableEq, Repr
+
+/-- the final `UpdateAccount(account, StateClosed, HeightHint(spendHeight), LatestTx(spendTx))` -/
+def closeMods (tx h : Nat) : List AMod := [.state acctStateClosed, .heightHint h, .latestTx tx]
+
+/-- `manager.HandleAccountSpend(traderKey, spendDetails)` for a spending transaction that does NOT recreate the
+account output (the recreate branch hands over to `resumeAccount`, i.e. to the chain watcher, and writes nothing
+here).  Three store calls in sequence, not one transaction: `Account`, (multi-sig only) the pending-batch clause
+`PendingBatch` + `MarkBatchComplete` + `Account` under `pendingBatchMtx`, then `UpdateAccount` closing the account. -/
+def handleAccountSpend (k : Key) (w : Witness) (tx h : Nat) (db : DB) : DB × Option Err :=
+  match lookup k db.accounts with
+  | none => (db, some .noAcct)
+  | some _ =>
+    match w with
+    | .unknown => (db, some .other)                       -- "unknown spend witness"
+    | .expiry => commit db (updateAccountTx k (closeMods tx h) db)
+    | .multiSig =>
+      match commit db (spendPendingClause db) with
+      | (db1, some e) => (db1, some e)
+      | (db1, none) => commit db1 (updateAccountTx k (closeMods tx h) db1)
+
 /-! ### `auctioneer/batch.go` checkPendingBatch -/
 
 /-- what `c.client.BatchSnapshot` + `batchTx.Deserialize` yield -/
@@ -491,6 +516,7 @@ inductive Op where
   | updateAccount (k : Key) (mods : List AMod)
   | reopen
   | spend                                   -- HandleAccountSpend's pending-batch clause
+  | accountSpend (k : Key) (w : Witness) (tx h : Nat)   -- the whole HandleAccountSpend (closing branch)
   | reconnect (rpc : Rpc) (removeOk : Bool) -- checkPendingBatch against the real DB
 deriving DecidableEq, Repr
 
@@ -506,6 +532,7 @@ def step (db : DB) : Op → DB × Option Err
   | .updateAccount k m => commit db (updateAccountTx k m db)
   | .reopen => (db, none)                   -- close + `clientdb.New` on the same file (trusted: identity)
   | .spend => commit db (spendPendingClause db)
+  | .accountSpend k w tx h => handleAccountSpend k w tx h db
   | .reconnect rpc rm => ((reconnect rpc rm db).1, none)
 
 def run (db : DB) : List Op → DB
